@@ -252,6 +252,12 @@ def redundant_case(draw):
         base["args"] = {"count": n, "c2c_expansion": draw(st.sampled_from([1.0, 1.1, 0.9]))}
         if draw(st.booleans()):
             rest = [m for m in fams[fi] if m != (base["cell"], base["gdir"])]
+            # prefer a second source that does not touch the first: their different gradings then meet inside
+            # the un-chopped blocks between them (touching sources are refused outright)
+            base_nodes = set(lt.cell_nodes(case["dims"], base["cell"]))
+            apart = [m for m in rest if not (base_nodes & set(lt.cell_nodes(case["dims"], m[0])))]
+            if apart and draw(st.integers(0, 3)) > 0:
+                rest = apart
             c, d = draw(st.sampled_from(rest))
             new.append({"cell": c, "gdir": d, "args": {"count": n, "c2c_expansion": draw(st.sampled_from([1.0, 1.1, 1.2, 0.9]))}})
     case["chops"] = case["chops"] + new
